@@ -355,6 +355,27 @@ def r1b_audio(facts):
                            'delay, carry and tick_skip_samples_delay are stored after the move'))
     if n < 2:
         raise build.AnalysisBroken('C08.R1: API functions that seek / rewind the sequencer not found')
+    # loading another song is a move to its begin as well: the API functions that call LoadMIDI store the three fields
+    nl = 0
+    for fn in facts.all_fns():
+        if not fn.name.startswith('opn2_') or fn.tree is None:
+            continue
+        loads = [(b, j, st) for b, j, st in fn.cfg.stmts(conds=True) for x in calls_in(st['s']) if short(callee_name(x)) == 'LoadMIDI']
+        if not loads:
+            continue
+        nl += 1
+        stored = set()
+        for b2, j2, st2 in fn.cfg.stmts():
+            for y in walk(st2['s']):
+                ap = assign_parts(y)
+                if ap and strip(ap[0]).get('k') == 'MemberExpr' and 'Setup' in strip(ap[0])['n']:
+                    stored.add(short(strip(ap[0])['n']))
+        missing = [f_ for f_ in need if f_ not in stored]
+        out.append(Obl('C08.R1', fn.name, 'audio period restarted when a song is loaded', loads[0][2]['loc'], 'finding' if missing else 'discharged',
+                       why=('m_setup.%s keep(s) the value left by the previous song: the first events of the new song are delivered up to one period late' % ', '.join(missing)) if missing else
+                       'delay, carry and tick_skip_samples_delay are reset'))
+    if nl < 2 and facts.view not in ('noSEQ',):
+        raise build.AnalysisBroken('C08.R1: API functions that load a song not found')
     return out
 
 
